@@ -12,6 +12,7 @@ def run(ctx, rep):
     numeric.r08j(ctx, rep)
     numeric.r08k(ctx, rep)
     numeric.r08m(ctx, rep)
+    numeric.r08n(ctx, rep)
     # R08f: the zero test the division procedures guard with
     sub = type(rep)(rep.prop)
     numeric.r09c(ctx, sub)
